@@ -647,8 +647,8 @@ theorem zone_size_err (R : Rounding fl) (full : ℚ) (hf : full = 360 ∨ full =
   have hnQ : (1 : ℚ) ≤ (n : ℚ) := by exact_mod_cast hn1
   have hn60 : (n : ℚ) ≤ 60 := by exact_mod_cast hn
   have hnpos : (0 : ℚ) < (n : ℚ) := by linarith
-  have hf90 : (90 : ℚ) ≤ full := by rcases hf with h | h <;> (rw [h]; norm_num)
-  have hf360 : full ≤ 360 := by rcases hf with h | h <;> (rw [h]; norm_num)
+  have hf90 : (90 : ℚ) ≤ full := by rcases hf with h | h <;> norm_num [h]
+  have hf360 : full ≤ 360 := by rcases hf with h | h <;> norm_num [h]
   have hfpos : (0 : ℚ) < full := by linarith
   have hpos : 0 < full / (n : ℚ) := by positivity
   have hlo : 3 / 2 ≤ full / (n : ℚ) := by rw [le_div_iff₀ hnpos]; nlinarith
@@ -809,5 +809,44 @@ theorem local_axis (R : Rounding fl) {d d' ref : ℚ} (k : ℕ) (hk : k < 131072
   ⟨idx_arg_err R k hk hd hd' href,
    fun lo hi => floor_eq_of_close (idx_arg_err R k hk hd hd' href) lo hi,
    coord_err R k hk hd hd360 hd' href⟩
+
+/-! ### glue to the normal form of `Model.Cpr.withRef` (`Proofs.Cpr.latOf`, `lonOf`, `dLatOf`, `dLonOf`) -/
+
+theorem fDLat_err (R : Rounding fl) (full : ℚ) (hf : full = 360 ∨ full = 90) (m : Msg) :
+    |fDLat fl full m - dLatOf full m| ≤ dLatOf full m * u + 1 / 2 ^ 100 ∧ 3 / 2 ≤ dLatOf full m ∧
+      dLatOf full m ≤ 360 := by
+  unfold fDLat dLatOf
+  have x60 : F64Exact ((60 : ℕ) : ℚ) := f64exact_of_int 60 (by norm_num) (by norm_num)
+  have x59 : F64Exact ((59 : ℕ) : ℚ) := f64exact_of_int 59 (by norm_num) (by norm_num)
+  split
+  · have := zone_size_err R full hf 60 (by norm_num) (by norm_num)
+    rw [R.exact _ x60] at this
+    simpa using this
+  · have := zone_size_err R full hf 59 (by norm_num) (by norm_num)
+    rw [R.exact _ x59] at this
+    simpa using this
+
+theorem fDLon_err (R : Rounding fl) (full : ℚ) (hf : full = 360 ∨ full = 90) (ni : ℕ) (h1 : 1 ≤ ni)
+    (h59 : ni ≤ 59) :
+    |fDLon fl full ni - full / ni| ≤ full / ni * u + 1 / 2 ^ 100 ∧ 3 / 2 ≤ full / (ni : ℚ) ∧
+      full / (ni : ℚ) ≤ 360 := by
+  unfold fDLon
+  rw [if_pos (by omega)]
+  exact zone_size_err R full hf ni h1 (by omega)
+
+theorem latOf_eq (full : ℚ) (m : Msg) (latRef : ℚ) :
+    latOf full m latRef
+      = dLatOf full m * ((⌊gIdxArg latRef (dLatOf full m) m.lat⌋ : ℚ) + (m.lat : ℚ) / 131072) := by
+  unfold latOf gIdxArg; rw [cprMax_eq]
+
+theorem lonOf_eq (full : ℚ) (m : Msg) (lat lonRef : ℚ) :
+    lonOf full m lat lonRef
+      = dLonOf full m lat * ((⌊gIdxArg lonRef (dLonOf full m lat) m.lon⌋ : ℚ) + (m.lon : ℚ) / 131072) := by
+  unfold lonOf gIdxArg; rw [cprMax_eq]
+
+theorem niOf_range (i : ℕ) (lat : ℚ) : 1 ≤ niOf i lat ∧ niOf i lat ≤ 59 := by
+  have := nl_range lat
+  unfold niOf
+  exact ⟨le_max_right _ _, max_le (by omega) (by norm_num)⟩
 
 end Rs1090.Proofs.CprFloat
